@@ -1536,7 +1536,10 @@ enumerate(void)
 			vd_nontrivial();
 			vd_sample("job of A runs, A %s, clean shutdown, restart", cl ? "cancelled" : "goes on");
 		}
-		for (int n = 15; n <= 18; n++) {
+		for (int ni = 0; ni < 6; ni++) {
+			/* 17 and more users: the dump-everybody path has to enlarge its list of open files half-way */
+			static const int nn[] = {15, 16, 17, 18, 40, 100};
+			const int n = nn[ni];
 			for (int cl = 0; cl < 2; cl++) {
 				if (!vd_next()) continue;
 				vd_shape("many/%d/%s", n, cl ? "cancel" : "plain");
